@@ -236,8 +236,19 @@ def run_case(ctx, case):
     if rng.random() < 0.6:
         spaces = [spaces[0]] * 3          # compatible pool most of the time, so sequences get long
     datas = [wellcond(rng, L, n) for _ in range(3)]
-    out = [MatrixArray(length=L, rank=n, data=np.array(d), space=s, types=types) for d, s in zip(datas, spaces)]
-    inp = [MatrixArray(length=L, rank=n, data=np.array(d), space=s, types=types) for d, s in zip(datas, spaces)]
+    def make(d, s, ident):
+        if not ident:
+            return MatrixArray(length=L, rank=n, data=np.array(d), space=s, types=types)
+        # the shipped subclass, brought to the same content through arithmetic (as PRISM.cost does with I - Omega C)
+        m = IdentityMatrixArray(length=L, rank=n, space=s, types=types)
+        with MC.paused():
+            m *= 0.0
+            m += np.array(d)
+        return m
+    ident = [bool(rng.random() < 0.25) for _ in range(3)]
+    ctx.count('identity_subclass_operands', sum(ident))
+    out = [make(d, s, f) for d, s, f in zip(datas, spaces, ident)]
+    inp = [make(d, s, f) for d, s, f in zip(datas, spaces, ident)]
     steps = []
     for step in range(int(case['nsteps'])):
         kind = str(rng.choice(['bin', 'bin', 'bin', 'dot', 'invert', 'copy', 'setget', 'unknown']))
